@@ -273,6 +273,11 @@ func c14Units(tier string, seed int64) []Unit {
 			}
 		}})
 	}
+	nfree := 60
+	if !quick {
+		nfree = 600
+	}
+	units = append(units, freeRunUnit("C14", nfree))
 	return units
 }
 
